@@ -161,6 +161,12 @@ func (fr *Frame) exec(in ssa.Instruction) {
 	case *ssa.Convert:
 		fr.execConvert(x)
 	case *ssa.MakeInterface:
+		if isErrorType(x.Type()) {
+			// a non-nil error value; identified by its creation site
+			ex.errSite++
+			fr.set(x, TV{IntC(int64(1000 + ex.errSite)), x.Type()})
+			return
+		}
 		fr.set(x, IfaceV{Dyn: fr.get(x.X), DynTyp: x.X.Type(), Typ: x.Type()})
 	case *ssa.ChangeInterface:
 		fr.set(x, fr.get(x.X))
